@@ -50,6 +50,24 @@ def step (st : St) (j : Json) : Except String (St × Json × List Fired) := do
     if !control && accepted && !finished then
       fired := fired ++ [{ name := "accepted_parameter_value_block_never_finishes", detail := mkObj [("name", js name), ("value", js ((jstr j "value").toOption.getD ""))] }]
     pure (st, out, fired)
+  | "scenario" =>
+    -- a directed history run in its own process (with a control run that differs in one step)
+    let name ← jstr j "name"
+    let control := (jbool j "control").toOption.getD false
+    let finished ← jbool out "finished"
+    let err ← jstr out "err"
+    let reached := (jbool out "slashed").toOption.getD true
+    let mut fired : List Fired := []
+    if control && (!finished || !err.isEmpty || !reached) then
+      fired := fired ++ [{ name := "probe_control_did_not_finish", detail := mkObj [("name", js name), ("err", js err)] }]
+    if !control then
+      if !finished then
+        fired := fired ++ [{ name := "block_never_finished", detail := mkObj [("scenario", js name)] }]
+      else if err.startsWith "panic/" then
+        fired := fired ++ [{ name := "finalize_block_panicked", detail := mkObj [("scenario", js name), ("err", js err)] }]
+      else if !err.isEmpty then
+        fired := fired ++ [{ name := "finalize_block_returned_error", detail := mkObj [("scenario", js name), ("err", js err)] }]
+    pure (st, out, fired)
   | _ => throw s!"unknown op {op}"
 
 def initSt (_ : Json) : St := {}
